@@ -796,6 +796,10 @@ class Fxp():
             # a raw value is not transformed, but the object remains a scaled one
             self.scaled = bool(self.bias != 0 or self.scale != 1)
         if self.scale is not None and self.bias is not None and not raw:
+            if (self.bias != 0 or self.scale != 1) and val.dtype.kind == 'u':
+                # unsigned 64 bits can't be combined with a negative bias or scale (nor go below zero)
+                val = val.astype(np.int64) if val.size == 0 or np.max(val) < 2**63 else val.astype(object)
+                if isinstance(vdtype, np.dtype) and vdtype.kind == 'u': vdtype = int
             if self.bias != 0:
                 val = val - self.bias
             if self.scale != 1:
